@@ -863,7 +863,12 @@ pub fn supervise(engine: &dyn Engine, tier: Tier, vseed: u64) -> RunOutcome {
         "wall_s": (wall * 1000.0).round() / 1000.0,
         "violations": n_viol,
     });
-    let evdir = verif_dir().join("evidence");
+    // self tests that run against deliberately broken trees redirect their evidence
+    // so that /verif/evidence only ever describes the tree as it is
+    let evdir = match std::env::var("VERIF_EVIDENCE_DIR") {
+        Ok(d) => std::path::PathBuf::from(d),
+        Err(_) => verif_dir().join("evidence"),
+    };
     let _ = std::fs::create_dir_all(&evdir);
     let evpath = evdir.join(format!("{prop}.json"));
     let tmp = evdir.join(format!("{prop}.json.tmp"));
